@@ -96,7 +96,7 @@ void *vf_memcpy(void *d, const void *s, uint64_t n)
 {
     __CPROVER_assert(n == 0 || __CPROVER_r_ok(s, n), "memcpy: source range readable");
     __CPROVER_assert(n == 0 || __CPROVER_w_ok(d, n), "memcpy: destination range writable");
-#ifdef VF_TRACKED
+#if defined(VF_TRACKED) && !defined(VF_TRIVIAL_DTOR)
     __CPROVER_assert(!(g_o_alive && n != 0 && VF_OVERLAPS_O(d, n)), "lifetime: a byte copy does not overwrite the storage of an alive non-trivial object");
 #endif
     if (n != 0)
@@ -168,7 +168,9 @@ uint8_t *g_o; _Bool g_o_alive; uint8_t g_o_how; uint8_t *g_o_from; uint8_t g_o_a
 uint64_t g_obj_live, g_obj_ctor, g_obj_copy, g_obj_move, g_obj_assign, g_obj_move_assign, g_obj_dtor;
 static void vf_obj_born(uint8_t *p, uint8_t how, uint8_t *from)
 {
+#ifndef VF_TRIVIAL_DTOR /* storage of an object with a trivial destructor may be reused without a destructor call */
     __CPROVER_assert(!(p == g_o && g_o_alive), "lifetime: no object is constructed over an alive object");
+#endif
     if (p == g_o) { g_o_alive = 1; g_o_how = how; g_o_from = from; g_o_asg = 0; g_o_moved_from = 0; }
     g_obj_live++;
 }
